@@ -1,5 +1,6 @@
 """Regeneration of lean/AsamCmp/Generated.lean from /repo's current headers and objects."""
 import os
+import re
 import subprocess
 
 from . import core
@@ -14,10 +15,14 @@ def regenerate(hdir):
         raise RuntimeError("dumper failed: " + r.stderr.decode(errors="replace")[:500])
     text = r.stdout.decode()
     # mutable static storage of the library objects (nm on the freshly built objects)
-    syms = mutable_statics(os.path.join(hdir, "obj"))
+    syms, ignored, seen = mutable_statics_elf(os.path.join(hdir, "obj"))
     text += "\n" + create_dispatch() + "\n"
-    text += "\n/-- symbols in writable sections of the library objects, minus the allow-list -/\n"
-    text += "def mutableStatics : List String := [" + ", ".join('"%s"' % s for s in syms) + "]\n\nend AsamCmp.Generated\n"
+    text += ("\n/-- every defined OBJECT / TLS symbol (local, global, weak, unique: inline variables, statics of templates and inline functions too) in a\n"
+             "    WRITABLE section of a library object other than relocation-read-only data, read from the ELF tables of the freshly built\n"
+             "    objects (%d data symbols looked at), minus the ignored ones listed below -/\n" % seen)
+    text += "def mutableStatics : List String := [" + ", ".join('"%s"' % s.replace('"', "'") for s in syms) + "]\n"
+    text += "\n/-- what the scan found and ignored, and why (nothing is ignored silently) -/\n"
+    text += "def mutableStaticsIgnored : List (String × String) := [" + ", ".join('("%s", "%s")' % (a.replace('"', "'"), b) for a, b in ignored) + "]\n\nend AsamCmp.Generated\n"
     p = os.path.join(core.LEAN, "AsamCmp", "Generated.lean")
     old = open(p).read() if os.path.exists(p) else None
     if old != text:
@@ -134,20 +139,50 @@ def regenerate_src():
     return note
 
 
-ALLOW = ("std::__ioinit", "__asan", "__ubsan", "__odr_asan", "__tsan", "__sancov", "guard variable for std::", "DW.ref")
+# symbols in writable sections that are not state of the library: (substring of the demangled name, why it is ignored)
+ALLOW = (("std::__ioinit", "the iostream initialiser object every translation unit that includes <iostream> gets"),
+         ("__asan", "AddressSanitizer instrumentation of the harness build"), ("__ubsan", "UBSan instrumentation"), ("__odr_asan", "ASan ODR indicators"),
+         ("__tsan", "ThreadSanitizer instrumentation"), ("__sancov", "sanitizer coverage"), ("DW.ref.", "pointer to the exception personality routine"),
+         ("guard variable for std::", "guard of a function-local static INSIDE the standard library headers"))
+RELRO = (".data.rel.ro", ".init_array", ".fini_array", ".ctors", ".dtors", ".eh_frame", ".gcc_except_table", ".tm_clone_table")
+
+
+def mutable_statics_elf(objdir):
+    """Every defined OBJECT / TLS symbol — local, global, weak or unique (inline variables, statics of templates and of inline
+    functions) — that lives in a WRITABLE section of a library object, other than relocation-read-only data (vtables, typeinfo),
+    read from the ELF section and symbol tables.  -> (kept names, ignored [(name, reason)], number of symbols looked at)"""
+    import glob
+    keep, ignored, seen = set(), set(), 0
+    for o in sorted(glob.glob(os.path.join(objdir, "*.o"))):
+        sec = {}
+        r = subprocess.run(["readelf", "-S", "-W", o], stdout=subprocess.PIPE, stderr=subprocess.PIPE).stdout.decode(errors="replace")
+        for line in r.split("\n"):
+            m = re.match(r"\s*\[\s*(\d+)\]\s+(\S+)\s+(\S+)\s+[0-9a-f]+\s+[0-9a-f]+\s+[0-9a-f]+\s+[0-9a-f]+\s+([A-Za-z]*)\s", line)
+            if m:
+                sec[m.group(1)] = (m.group(2), m.group(4))
+        r = subprocess.run(["readelf", "-s", "-W", o], stdout=subprocess.PIPE, stderr=subprocess.PIPE).stdout.decode(errors="replace")
+        names = []
+        for line in r.split("\n"):
+            w = line.split()
+            if len(w) >= 8 and w[3] in ("OBJECT", "TLS") and w[6].isdigit():
+                sname, flags = sec.get(w[6], ("?", ""))
+                seen += 1
+                if "W" in flags and not sname.startswith(RELRO):
+                    names.append((w[7], w[3] == "TLS"))
+        if names:
+            dem = subprocess.run(["c++filt"], input="\n".join(n for n, _ in names).encode(), stdout=subprocess.PIPE).stdout.decode(errors="replace").split("\n")
+            for (raw, tls), d in zip(names, dem):
+                d = d.strip() or raw
+                hit = [why for pat, why in ALLOW if pat in d or pat in raw]
+                if hit:
+                    ignored.add((d, hit[0]))
+                else:
+                    keep.add(("thread_local " if tls else "") + d)
+    return sorted(keep), sorted(ignored), seen
 
 
 def mutable_statics(objdir):
-    r = subprocess.run("nm -C %s/*.o" % objdir, shell=True, stdout=subprocess.PIPE, stderr=subprocess.PIPE)
-    out = set()
-    for line in r.stdout.decode(errors="replace").split("\n"):
-        parts = line.split(None, 2)
-        if len(parts) == 3 and parts[1] in "bBdDCsSgG":
-            name = parts[2]
-            if any(a in name for a in ALLOW):
-                continue
-            out.add(name)
-    return sorted(out)
+    return mutable_statics_elf(objdir)[0]
 
 
 def _strip_comments(src):
